@@ -132,6 +132,7 @@ NoTies(lat) == \A c \in 1..Len(lat) : \A k \in 1..Len(lat[c]) :
 DebugNeutral == ObsOf(FreshMatch(I, [cf EXCEPT !.debug = TRUE], M.n)) = ObsOf([M |-> M, R |-> R])
 C19scoped == (OnlyMatch /\ ~cf.debug /\ ~cf.ne /\ NoTies(M.lat)) => DebugNeutral
 C19all == (OnlyMatch /\ ~cf.debug) => DebugNeutral
+C19noties == (OnlyMatch /\ ~cf.debug /\ NoTies(M.lat) /\ NoTies(FreshMatch(I, [cf EXCEPT !.debug = TRUE], M.n).M.lat)) => DebugNeutral
 \* C10 / C16 at design level: reversing every neighbour list (listing order) leaves the canonical result unchanged
 RevI == [I EXCEPT !.nbrs = [n \in DOMAIN I.nbrs |-> Reverse(I.nbrs[n])]]
 C10order == OnlyMatch => Canon(FreshMatch(RevI, cf, M.n)) = Canon([M |-> M, R |-> R])
